@@ -137,8 +137,11 @@ def c14(prop, tier, replay):
             e = rp["entry"]
             val = lambda x: x[0] * (1 << 20) + x[1]
             path = os.path.join(work, "replay.ndjson")
-            vf.run([bins["rec-time"], "-one", ",".join(str(v) for v in (val(e["w"]), val(e["b"]), val(e["wi"]), val(e["bi"]), val(e["mt"]), e["stm"])),
-                    "-out", path], timeout=120)
+            if "dl" in e:
+                vf.run([bins["rec-time"], "-deadline", "-out", path], timeout=300)
+            else:
+                vf.run([bins["rec-time"], "-one", ",".join(str(v) for v in (val(e["w"]), val(e["b"]), val(e["wi"]), val(e["bi"]), val(e["mt"]), e["stm"])),
+                        "-out", path], timeout=120)
             _, mm, _ = tc.validate_trace(work, "TimeTrace", path)
             if [m for m in mm if m["rule"].startswith("C14/")]:
                 print("VIOLATION property=C14 replay=%s" % replay)
@@ -165,7 +168,7 @@ def c14(prop, tier, replay):
             "clock_states_judged": res.events,
             "apalache": apa,
             "samples": res.samples[:2],
-            "rule": "dense grid t in 1..200, k*30+-2, 2^k+-1 (k<=39), clamp break-points x 20 increments x both colours, movetime variants, random up to 10^12; each state also under 5 other opponent clocks; %d states through a real driver" % ndrv,
+            "rule": "dense grid t in 1..200, k*30+-2, 2^k+-1 (k<=39), clamp break-points x 20 increments x both colours, movetime variants, random up to 10^12; each state also under 8 other opponent clocks (incl. 0 and negative = not reported); %d states through a real driver; 6 deadline probes (blocking search, GUI keeps sending isready/unknown/debug lines, with and without ponderhit): abort must come from the timer within hard+5 s" % ndrv,
         }
         vf.write_evidence(prop, tier, "model_checking", cov, time.time() - t0, len(new),
                           ["TLC, Apalache/Z3", "uci.VerifLimits calls the same timeControl methods handleGo uses (hook file uci/export_verif.go)"])
